@@ -1,16 +1,19 @@
 -------------------------------- MODULE MCSeq --------------------------------
 EXTENDS LevelSeqMC
 Sh(kd, v, h, thr, amt, au, ts) == [kind |-> kd, vis |-> v, hid |-> h, thr |-> thr, amt |-> amt, auto |-> au, ts |-> ts, side |-> "Buy"]
+ShP(kd, v, h, thr, amt, au, ts, dpx) == [kind |-> kd, vis |-> v, hid |-> h, thr |-> thr, amt |-> amt, auto |-> au, ts |-> ts, side |-> "Buy", dpx |-> dpx]
 \* one representative per behaviour class, small quantities, zero quantities included
 ShapesA == { Sh("Standard", 2, 0, 0, -1, FALSE, 1), Sh("Standard", 0, 0, 0, -1, FALSE, 2),
              Sh("Pegged", 3, 0, 0, -1, FALSE, 1),
              Sh("Iceberg", 1, 2, 0, -1, FALSE, 2), Sh("Iceberg", 0, 1, 0, -1, FALSE, 1),
              Sh("Reserve", 1, 2, 1, 1, TRUE, 1), Sh("Reserve", 2, 2, 0, 0, TRUE, 2),
              Sh("Reserve", 1, 1, 0, -1, FALSE, 1), Sh("Reserve", 2, 3, 2, 2, TRUE, 2),
-             Sh("Reserve", 0, 2, 0, 1, TRUE, 1) }        \* hidden only: shows nothing, replenishes when reached
+             Sh("Reserve", 0, 2, 0, 1, TRUE, 1),         \* hidden only: shows nothing, replenishes when reached
+             ShP("Standard", 3, 0, 0, -1, FALSE, 2, 1) } \* carries a price other than the level's
 ShapesB == { Sh("PostOnly", 2, 0, 0, -1, FALSE, 2), Sh("TrailingStop", 3, 0, 0, -1, FALSE, 1),
              Sh("MarketToLimit", 3, 0, 0, -1, FALSE, 2),
-             Sh("Iceberg", 2, 1, 0, -1, FALSE, 1), Sh("Reserve", 1, 3, 1, -1, TRUE, 2) }
+             Sh("Iceberg", 2, 1, 0, -1, FALSE, 1), Sh("Reserve", 1, 3, 1, -1, TRUE, 2),
+             ShP("Iceberg", 1, 2, 0, -1, FALSE, 1, -2) }
 Ids2 == 1..2
 Ids3 == 1..3
 =============================================================================
